@@ -94,10 +94,10 @@ type c08Op struct {
 }
 
 type c08Prog struct {
-	Seed  int64
-	Pre   []uint64  // ids present before the tasks start
+	Seed   int64
+	Pre    []uint64 // ids present before the tasks start
 	PreDel []uint64 // ids added and deleted again before the tasks start (holes)
-	Tasks [][]c08Op
+	Tasks  [][]c08Op
 	// readers cancelled by a dedicated task: index of reader task -> true
 }
 
@@ -166,21 +166,21 @@ type c08Finding struct {
 }
 
 type c08Reader struct {
-	task    *verifsync.Task
-	x       uint64
-	ctx     context.Context
-	cancel  context.CancelFunc
-	calls   []c08Call
+	task        *verifsync.Task
+	x           uint64
+	ctx         context.Context
+	cancel      context.CancelFunc
+	calls       []c08Call
 	cancelledAt int
 }
 
 type c08Call struct {
-	X          uint64
-	Call, Ret  int
-	Returned   bool
-	ResultId   uint64
-	Empty      bool
-	Result     []Message
+	X               uint64
+	Call, Ret       int
+	Returned        bool
+	ResultId        uint64
+	Empty           bool
+	Result          []Message
 	CancelledBefore bool
 }
 
